@@ -1,6 +1,199 @@
 /-
-  C13 — property theorems (placeholder: no theorem yet, the property is not claimed).
+  C13 — Colour conversions scale to the nearest value and preserve the extremes.
+
+  Property theorems only (helper lemmas: EG/Lemmas/ColorConv.lean, ColorConvLift.lean). Statements
+  are about the model `EG.Model.Conv` (the bodies of the conversion macros of conversion.rs written
+  once over pairs of `ColorSpec`s) and quantify over `resolvedTable`: the generated `convTable`
+  (one entry per `impl From<A> for B` the translator saw in the source today) with the type names
+  looked up in the generated `colorTable`; `table_counts` says nothing was lost on the way.
+
+  Strength. `convert_channel` facts are decided by kernel evaluation over the whole finite table
+  they are used on: (channel maxima occurring in `colorTable`)² x every value up to the source
+  maximum (`cc_*`). Statements about whole colours hold for ALL colour values of the source type
+  (`x.a.Valid c`, up to 2^24 of them): they are lifted from the channel facts by arithmetic, using
+  that every generated conversion is channel-wise `new` of converted channels and the C12 lemmas
+  about `new` and the accessors. `black_white`, `gray_rgb_gray_roundtrip` and
+  `gray_binary_threshold` are decided directly over (pairs x all gray values), again finite tables.
+  `Nearest F T v out` is `|out - v*T/F| ≤ 1/2` multiplied out: `2*F*out ≤ 2*v*T + F ∧ 2*v*T ≤ 2*F*out + F`.
 -/
-import EG.Basic.Core
+import EG.Lemmas.ColorConvLift
 namespace EG.C13
+open EG EG.Generated EG.ColorSpec EG.Conv
+
+/-! ### the generated tables -/
+
+/-- Table sizes equal the numbers of generated impls the translator counted in the source, per kind,
+and every entry resolves against the colour table. -/
+theorem table_counts :
+    convTable.length = seenConvImpls
+    ∧ (convTable.filter (·.kind == .rgbRgb)).length = seenRgbRgb
+    ∧ (convTable.filter (·.kind == .grayGray)).length = seenGrayGray
+    ∧ (convTable.filter (·.kind == .grayRgb)).length = seenGrayRgb
+    ∧ (convTable.filter (·.kind == .rgbGray)).length = seenRgbGray
+    ∧ (convTable.filter (·.kind == .fromBinary)).length = seenFromBinary
+    ∧ (convTable.filter (·.kind == .grayBinary)).length = seenGrayBinary
+    ∧ (convTable.filter (·.kind == .rgbBinary)).length = seenRgbBinary
+    ∧ resolvedTable.length = convTable.length := by decide +kernel
+
+/-- The helper conversions the RGB -> gray / binary bodies call (`Rgb888::from(other)`, `.into()`
+from `Gray8`) are the named types of the colour table and are themselves generated conversions
+(or the reflexive `From<T> for T`). -/
+theorem helper_conversions_exist : ∀ x ∈ resolvedTable,
+    x.via ∈ colorTable ∧ x.via.isRgb = true ∧ x.via.name = lumaVia ∧ x.g8 ∈ colorTable ∧ x.g8.kind = .gray ∧ x.g8.name = grayVia
+    ∧ ((x.kind = .rgbGray ∨ x.kind = .rgbBinary) → x.a.name ≠ x.via.name → (⟨x.a.name, x.via.name, .rgbRgb⟩ : ConvSpec) ∈ convTable)
+    ∧ (x.kind = .rgbGray → x.b.name ≠ x.g8.name → (⟨x.g8.name, x.b.name, .grayGray⟩ : ConvSpec) ∈ convTable) :=
+  Conv.typed_via
+
+/-! ### every provided conversion maps black to black and white to white -/
+
+/-- all 182 generated conversions, all seven kinds (`BinaryColor`: `Off` is black, `On` is white) -/
+theorem black_white : ∀ x ∈ resolvedTable,
+    x.apply (black x.a) = black x.b ∧ x.apply (white x.a) = white x.b := Conv.black_white_table
+
+/-! ### `convert_channel` on the table it is used on -/
+
+theorem cc_extremes : ∀ F ∈ chanMaxima, ∀ T ∈ chanMaxima,
+    convertChannel F T 0 = 0 ∧ convertChannel F T F = T := Conv.cc_table_extremes
+
+theorem cc_range : ∀ F ∈ chanMaxima, ∀ T ∈ chanMaxima, ∀ v, v ≤ F → convertChannel F T v ≤ T :=
+  fun F hF T hT v hv => Conv.cc_table_range F hF T hT v (mem_upTo.mpr hv)
+
+/-- the representable value nearest to the exactly scaled one (error at most half a target step) -/
+theorem cc_nearest : ∀ F ∈ chanMaxima, ∀ T ∈ chanMaxima, ∀ v, v ≤ F → Nearest F T v (convertChannel F T v) :=
+  fun F hF T hT v hv => Conv.cc_table_nearest F hF T hT v (mem_upTo.mpr hv)
+
+theorem cc_monotone : ∀ F ∈ chanMaxima, ∀ T ∈ chanMaxima, ∀ v w, v ≤ w → w ≤ F →
+    convertChannel F T v ≤ convertChannel F T w :=
+  fun _ hF _ hT v w hvw hw => Conv.cc_monotone hF hT w hw v hvw
+
+theorem cc_widen_narrow : ∀ F ∈ chanMaxima, ∀ T ∈ chanMaxima, F ≤ T → ∀ v, v ≤ F →
+    convertChannel T F (convertChannel F T v) = v :=
+  fun F hF T hT h v hv => Conv.cc_table_widen_narrow F hF T hT h v (mem_upTo.mpr hv)
+
+/-- the `u32` intermediates of `convert_channel` stay below 2^32 (so the mathematical model is the code) -/
+theorem cc_no_overflow : ∀ F ∈ chanMaxima, ∀ T ∈ chanMaxima, ∀ v, v ≤ F →
+    T <<< ccShift < 2 ^ 32 ∧ v * ((T <<< ccShift) / F) + (1 <<< (ccShift - 1)) < 2 ^ 32 :=
+  fun F hF T hT v hv => Conv.cc_table_no_overflow F hF T hT v (mem_upTo.mpr hv)
+
+example : (31 : Nat) ∈ chanMaxima ∧ (255 : Nat) ∈ chanMaxima ∧ (31 : Nat) ≤ 255 ∧ convertChannel 31 255 17 = 140 := by decide
+
+/-! ### RGB -> RGB (90 conversions, every source colour) -/
+
+theorem rgb_channelwise : ∀ x ∈ resolvedTable, x.kind = .rgbRgb → ∀ c, x.a.Valid c →
+    x.b.chanR (x.apply c) = convertChannel x.a.maxR x.b.maxR (x.a.chanR c)
+    ∧ x.b.chanG (x.apply c) = convertChannel x.a.maxG x.b.maxG (x.a.chanG c)
+    ∧ x.b.chanB (x.apply c) = convertChannel x.a.maxB x.b.maxB (x.a.chanB c) := Conv.rgb_channelwise
+
+theorem rgb_nearest : ∀ x ∈ resolvedTable, x.kind = .rgbRgb → ∀ c, x.a.Valid c →
+    Nearest x.a.maxR x.b.maxR (x.a.chanR c) (x.b.chanR (x.apply c))
+    ∧ Nearest x.a.maxG x.b.maxG (x.a.chanG c) (x.b.chanG (x.apply c))
+    ∧ Nearest x.a.maxB x.b.maxB (x.a.chanB c) (x.b.chanB (x.apply c)) := Conv.rgb_nearest
+
+theorem rgb_monotone : ∀ x ∈ resolvedTable, x.kind = .rgbRgb → ∀ c c', x.a.Valid c → x.a.Valid c' →
+    (x.a.chanR c ≤ x.a.chanR c' → x.b.chanR (x.apply c) ≤ x.b.chanR (x.apply c'))
+    ∧ (x.a.chanG c ≤ x.a.chanG c' → x.b.chanG (x.apply c) ≤ x.b.chanG (x.apply c'))
+    ∧ (x.a.chanB c ≤ x.a.chanB c' → x.b.chanB (x.apply c) ≤ x.b.chanB (x.apply c')) := Conv.rgb_monotone
+
+/-- RGB <-> BGR (or any pair) of equal depth in every channel keeps all channels -/
+theorem rgb_same_depth : ∀ x ∈ resolvedTable, x.kind = .rgbRgb →
+    x.a.rbits = x.b.rbits → x.a.gbits = x.b.gbits → x.a.bbits = x.b.bbits → ∀ c, x.a.Valid c →
+    x.b.chanR (x.apply c) = x.a.chanR c ∧ x.b.chanG (x.apply c) = x.a.chanG c
+    ∧ x.b.chanB (x.apply c) = x.a.chanB c := Conv.rgb_same_depth
+
+/-- converting to a type with at least as many bits in every channel and back is the identity -/
+theorem rgb_widen_roundtrip : ∀ x ∈ resolvedTable, ∀ y ∈ resolvedTable, x.kind = .rgbRgb → y.kind = .rgbRgb →
+    y.a = x.b → y.b = x.a → x.a.rbits ≤ x.b.rbits → x.a.gbits ≤ x.b.gbits → x.a.bbits ≤ x.b.bbits →
+    ∀ c, x.a.Valid c → y.apply (x.apply c) = c := Conv.rgb_widen_roundtrip
+
+/-- non-vacuity: Rgb565 -> Bgr888 and back is such a pair, `0xF81F` a colour of Rgb565; and
+Rgb565 -> Bgr565 is a same-depth pair -/
+example : ∃ x ∈ resolvedTable, ∃ y ∈ resolvedTable, x.kind = .rgbRgb ∧ y.kind = .rgbRgb ∧ y.a = x.b ∧ y.b = x.a
+    ∧ x.a.name = "Rgb565" ∧ x.b.name = "Bgr888" ∧ x.a.rbits ≤ x.b.rbits ∧ x.a.gbits ≤ x.b.gbits ∧ x.a.bbits ≤ x.b.bbits
+    ∧ x.a.Valid 0xF81F ∧ x.apply 0xF81F = 0xFF00FF := by decide +kernel
+example : ∃ x ∈ resolvedTable, x.kind = .rgbRgb ∧ x.a.name = "Rgb565" ∧ x.b.name = "Bgr565"
+    ∧ x.a.rbits = x.b.rbits ∧ x.a.gbits = x.b.gbits ∧ x.a.bbits = x.b.bbits ∧ x.a.Valid 0xF800 ∧ x.apply 0xF800 = 0x001F := by
+  decide +kernel
+
+/-! ### gray -> gray (6 conversions) -/
+
+theorem gray_channelwise : ∀ x ∈ resolvedTable, x.kind = .grayGray → ∀ c, x.a.Valid c →
+    x.b.luma (x.apply c) = convertChannel (maxLuma x.a) (maxLuma x.b) (x.a.luma c) := Conv.gray_channelwise
+
+theorem gray_nearest : ∀ x ∈ resolvedTable, x.kind = .grayGray → ∀ c, x.a.Valid c →
+    Nearest (maxLuma x.a) (maxLuma x.b) (x.a.luma c) (x.b.luma (x.apply c)) := Conv.gray_nearest
+
+theorem gray_monotone : ∀ x ∈ resolvedTable, x.kind = .grayGray → ∀ c c', x.a.Valid c → x.a.Valid c' →
+    x.a.luma c ≤ x.a.luma c' → x.b.luma (x.apply c) ≤ x.b.luma (x.apply c') := Conv.gray_monotone
+
+theorem gray_widen_roundtrip : ∀ x ∈ resolvedTable, ∀ y ∈ resolvedTable, x.kind = .grayGray → y.kind = .grayGray →
+    y.a = x.b → y.b = x.a → x.a.rawBpp ≤ x.b.rawBpp → ∀ c, x.a.Valid c → y.apply (x.apply c) = c :=
+  Conv.gray_widen_roundtrip
+
+example : ∃ x ∈ resolvedTable, ∃ y ∈ resolvedTable, x.kind = .grayGray ∧ y.kind = .grayGray ∧ y.a = x.b ∧ y.b = x.a
+    ∧ x.a.name = "Gray2" ∧ x.b.name = "Gray8" ∧ x.a.rawBpp ≤ x.b.rawBpp ∧ x.a.Valid 2 ∧ x.apply 2 = 170 := by
+  decide +kernel
+
+/-! ### gray -> RGB gives equally scaled channels, and back -/
+
+/-- every channel is `convert_channel` of the luma to that channel's width, i.e. the value nearest
+to the luma scaled to that width -/
+theorem gray_rgb_equal_scaling : ∀ x ∈ resolvedTable, x.kind = .grayRgb → ∀ c, x.a.Valid c →
+    (x.b.chanR (x.apply c) = convertChannel (maxLuma x.a) x.b.maxR (x.a.luma c)
+     ∧ x.b.chanG (x.apply c) = convertChannel (maxLuma x.a) x.b.maxG (x.a.luma c)
+     ∧ x.b.chanB (x.apply c) = convertChannel (maxLuma x.a) x.b.maxB (x.a.luma c))
+    ∧ Nearest (maxLuma x.a) x.b.maxR (x.a.luma c) (x.b.chanR (x.apply c))
+    ∧ Nearest (maxLuma x.a) x.b.maxG (x.a.luma c) (x.b.chanG (x.apply c))
+    ∧ Nearest (maxLuma x.a) x.b.maxB (x.a.luma c) (x.b.chanB (x.apply c)) := Conv.gray_rgb_equal_scaling
+
+theorem gray_rgb_monotone : ∀ x ∈ resolvedTable, x.kind = .grayRgb → ∀ c c', x.a.Valid c → x.a.Valid c' →
+    x.a.luma c ≤ x.a.luma c' →
+    x.b.chanR (x.apply c) ≤ x.b.chanR (x.apply c') ∧ x.b.chanG (x.apply c) ≤ x.b.chanG (x.apply c')
+    ∧ x.b.chanB (x.apply c) ≤ x.b.chanB (x.apply c') := Conv.gray_rgb_monotone
+
+/-- converting back returns the original gray whenever every RGB channel has at least as many bits
+as the gray type (decided over every such pair and every gray value) -/
+theorem gray_rgb_gray_roundtrip : ∀ x ∈ resolvedTable, ∀ y ∈ resolvedTable,
+    x.kind = .grayRgb → y.kind = .rgbGray → y.a = x.b → y.b = x.a →
+    x.a.rawBpp ≤ x.b.rbits → x.a.rawBpp ≤ x.b.gbits → x.a.rawBpp ≤ x.b.bbits →
+    ∀ c, x.a.Valid c → y.apply (x.apply c) = c := Conv.gray_rgb_gray_roundtrip
+
+example : ∃ x ∈ resolvedTable, ∃ y ∈ resolvedTable, x.kind = .grayRgb ∧ y.kind = .rgbGray ∧ y.a = x.b ∧ y.b = x.a
+    ∧ x.a.name = "Gray4" ∧ x.b.name = "Rgb565" ∧ x.a.rawBpp ≤ x.b.rbits ∧ x.a.rawBpp ≤ x.b.gbits ∧ x.a.rawBpp ≤ x.b.bbits
+    ∧ x.a.Valid 9 ∧ x.apply 9 = 0x9CD3 ∧ y.apply 0x9CD3 = 9 := by decide +kernel
+
+/-! ### RGB -> gray, RGB -> binary: monotone in every channel; the luma -/
+
+theorem rgb_gray_monotone : ∀ y ∈ resolvedTable, y.kind = .rgbGray → ∀ c c', y.a.Valid c → y.a.Valid c' →
+    y.a.chanR c ≤ y.a.chanR c' → y.a.chanG c ≤ y.a.chanG c' → y.a.chanB c ≤ y.a.chanB c' →
+    y.b.luma (y.apply c) ≤ y.b.luma (y.apply c') := Conv.rgb_gray_monotone
+
+theorem rgb_binary_monotone : ∀ y ∈ resolvedTable, y.kind = .rgbBinary → ∀ c c', y.a.Valid c → y.a.Valid c' →
+    y.a.chanR c ≤ y.a.chanR c' → y.a.chanG c ≤ y.a.chanG c' → y.a.chanB c ≤ y.a.chanB c' →
+    y.apply c ≤ y.apply c' := Conv.rgb_binary_monotone
+
+/-- the luma of an RGB colour (`luma(Rgb888::from(c))`) is what its conversion to the 8-bit gray type returns -/
+theorem rgb_gray8_is_luma : ∀ y ∈ resolvedTable, y.kind = .rgbGray → y.b = y.g8 → ∀ c,
+    y.b.luma (y.apply c) = rgbLuma y.a y.via c := Conv.rgb_gray8_is_luma
+
+/-! ### conversions to `BinaryColor`: `On` exactly for the upper half of the luma range -/
+
+/-- gray types: luma range `0..=MAX_LUMA`, `On` iff `luma ≥ (MAX_LUMA+1)/2` -/
+theorem gray_binary_threshold : ∀ x ∈ resolvedTable, x.kind = .grayBinary → ∀ c, x.a.Valid c →
+    (x.apply c = 1 ↔ maxLuma x.a + 1 ≤ 2 * x.a.luma c) ∧ (x.apply c = 0 ∨ x.apply c = 1) :=
+  Conv.gray_binary_threshold
+
+/-- RGB types: luma range `0..=255` (`rgb_gray8_is_luma`), `On` iff `luma ≥ 128` -/
+theorem rgb_binary_threshold : ∀ x ∈ resolvedTable, x.kind = .rgbBinary → ∀ c,
+    (x.apply c = 1 ↔ 255 + 1 ≤ 2 * rgbLuma x.a x.via c) ∧ (x.apply c = 0 ∨ x.apply c = 1)
+    ∧ rgbLuma x.a x.via c ≤ 255 := Conv.rgb_binary_threshold
+
+example : ∃ x ∈ resolvedTable, x.kind = .grayBinary ∧ x.a.name = "Gray4" ∧ x.a.Valid 8 ∧ x.apply 8 = 1 ∧ x.apply 7 = 0 := by
+  decide +kernel
+example : ∃ x ∈ resolvedTable, x.kind = .rgbBinary ∧ x.a.name = "Rgb565" ∧ x.a.Valid 0x07E0 ∧ x.apply 0x07E0 = 1
+    ∧ x.apply 0xF81F = 0 := by decide +kernel
+example : ∃ y ∈ resolvedTable, y.kind = .rgbGray ∧ y.b = y.g8 ∧ y.a.name = "Bgr555" ∧ y.a.Valid 0x7C00 ∧ y.apply 0x7C00 = 29 := by
+  decide +kernel
+
+-- [V] RGB -> gray: how close the result is to the exact BT.601 luma scaled to the gray width (the code rounds twice: luma at 8 bits, then convert_channel) is not stated as a theorem; extremes, monotonicity in every channel and gray->RGB->gray are proved: carried by correspondence + oracle only
+
 end EG.C13
